@@ -321,8 +321,8 @@ Proof.
     [destruct (positive_int s) as [n|]; [destruct (N.leb_spec 8 n)|]|];
   (destruct (dict_get (lower_keys opts) (lit "timeout")) as [s'|];
     [destruct (positive_int s') as [n'|];
-       [destruct (N.leb_spec n' (max_tmo lim)); destruct (N.leb_spec 1 n')|]|]);
-  cbn [andb n_bs n_tmo]; lia.
+       [destruct (N.leb_spec (n' * TICKS_PER_SECOND) (max_tmo lim)); destruct (N.leb_spec 1 n')|]|]);
+  cbn [andb n_bs n_tmo]; unfold TICKS_PER_SECOND in *; lia.
 Qed.
 
 Lemma t_blocks_spec c : valid c -> t_blocks c = spec_blocks c.
